@@ -550,7 +550,8 @@ def cast_laws(ctx):
     run_law(ctx, 'date_from_ymd', [('y', T_INT), ('m', T_INT), ('d', T_INT)], ymd, ['date(y, m, d)'], [lambda r: py_cast(lambda t: date(*t), (r['y'], r['m'], r['d']))])
 
 
-PARTS = [date_laws, date_arith_laws, date_bin_laws, account_laws, string_laws, number_laws, cast_laws]
+# (cheap parts first: under a time cut-off the floors of every part are still met)
+PARTS = [cast_laws, string_laws, number_laws, account_laws, date_arith_laws, date_bin_laws, date_laws]
 
 
 def run(ctx):
